@@ -20,8 +20,11 @@ ACCESSOR_OPS = (
     'music.set_properties',
 )
 COPY_OP = 'map.copy_rect'      # get_rect_tiles, then set_rect_tiles(result)
+RELOAD_OP = 'game.save_reload'  # write the cart, load it back, carry on
+REPLACE_OP = 'game.replace_section'  # assign a new section object
 RAW_OP = 'game.write_cart_data'
-ACCESSOR_OPS = ACCESSOR_OPS + (COPY_OP, 'gfx.copy_sprite')
+ACCESSOR_OPS = ACCESSOR_OPS + (COPY_OP, 'gfx.copy_sprite', RELOAD_OP,
+                               REPLACE_OP)
 ALL_OPS = ACCESSOR_OPS + (RAW_OP,)
 
 B = models.BOUNDARIES
@@ -131,6 +134,13 @@ def gen_op(rng, kind):
              'tile_y_offset': rng.choice([0, 0, 1, 4, 7])}
         if rng.random() < 0.5:
             a['dest'] = a['id']          # overlapping copy
+    elif kind == RELOAD_OP:
+        a = {'fmt': rng.choice(['png', 'png', 'p8'])}
+    elif kind == REPLACE_OP:
+        a = {'section': rng.choice(['gfx', 'map', 'gff', 'music', 'sfx',
+                                    'sfx', 'music']),
+             'data_seed': rng.randint(1, 10**9),
+             'from': rng.choice(['bytes', 'bytearray'])}
     elif kind.startswith('gff.'):
         a = {'id': _edge(rng, 0, 255, [0, 1, 254, 255]),
              'flags': rng.choice([1, 2, 4, 8, 16, 32, 64, 128, 255, 0,
@@ -212,8 +222,18 @@ def gen_init(rng):
     for k in refcodec.REGIONS:
         regions[k] = 'empty' if mode == 'empty' else rng.choice(
             ['zero', 'empty'] + [rng.randint(1, 10**9)] * 4)
-    return {'mode': mode, 'regions': regions,
-            'version': rng.choice([8, 16, 33])}
+    init = {'mode': mode, 'regions': regions,
+            'version': rng.choice([8, 16, 33]),
+            'bystander': rng.choice(['fresh', 'fresh', 'clone'])}
+    if mode == 'p8':
+        order = ['gfx', 'label', 'gff', 'map', 'sfx', 'music']
+        if rng.random() < 0.4:
+            rng.shuffle(order)
+        init['p8_style'] = {'omit_empty': rng.random() < 0.5,
+                            'order': order if order != [
+                                'gfx', 'label', 'gff', 'map', 'sfx', 'music']
+                            else None}
+    return init
 
 
 def generate(rng, prop, tier, index):
@@ -233,6 +253,8 @@ def generate(rng, prop, tier, index):
         enabled = [RAW_OP] * 4
         if rng.random() < 0.5:
             enabled += rng.sample(list(ACCESSOR_OPS), rng.randint(1, 4))
+        if rng.random() < 0.3:
+            enabled += [REPLACE_OP]
     n = rng.choice([1, 2, 3, 5, 8, 13, 21, 30])
     ops = [gen_op(rng, rng.choice(enabled)) for _ in range(n)]
     return {'engine': NAME, 'init': init, 'ops': ops}
@@ -284,7 +306,10 @@ def _build_game(w, init):
         g.sfx = Sfx.from_bytes(cart['sfx'], version=v)
     else:
         name = 'cart.p8' if mode == 'p8' else 'cart.p8.png'
-        w.put(name, refcodec.encode_any(name, cart))
+        if mode == 'p8':
+            w.put(name, refcodec.encode_p8(cart, init.get('p8_style')))
+        else:
+            w.put(name, refcodec.encode_any(name, cart))
         g = pfile.from_file(w.p(name))
     return g, cart
 
@@ -502,7 +527,20 @@ def execute(sc):
         g2, _cart2 = _build_game(w, dict(sc['init'], mode='bytes')
                                  if sc['init']['mode'] != 'empty'
                                  else sc['init'])
+        if sc['init'].get('bystander') == 'clone':
+            # built from this game's own bytes: must still be independent
+            from pico8.gfx.gfx import Gfx
+            from pico8.gff.gff import Gff
+            from pico8.map.map import Map
+            from pico8.sfx.sfx import Sfx
+            from pico8.music.music import Music
+            g2.gfx = Gfx.from_bytes(g.gfx.to_bytes(), version=33)
+            g2.map = Map.from_bytes(g.map.to_bytes(), version=33, gfx=g2.gfx)
+            g2.gff = Gff.from_bytes(g.gff.to_bytes(), version=33)
+            g2.music = Music.from_bytes(g.music.to_bytes(), version=33)
+            g2.sfx = Sfx.from_bytes(g.sfx.to_bytes(), version=33)
         bystander0 = _flat(g2)
+        caller_buffers = []
         label0 = bytes(g.label._data) if getattr(g, 'label', None) else None
         retained = []
         for step, o in enumerate(sc['ops']):
@@ -514,11 +552,64 @@ def execute(sc):
             exc = None
             real = mres = None
             rejected = False
-            mres, rejected = _model(m, op, a)
-            try:
-                real = _real(g, op, a)
-            except Exception as e:       # picotool raised
-                exc = e
+            if op == REPLACE_OP:
+                # the public attributes of a Game may be assigned: a new
+                # section object takes the place of the old one
+                from pico8.gfx.gfx import Gfx
+                from pico8.gff.gff import Gff
+                from pico8.map.map import Map
+                from pico8.sfx.sfx import Sfx
+                from pico8.music.music import Music
+                sec = a['section']
+                data = bytearray(core.rnd_bytes(
+                    a['data_seed'], refcodec.REGION_SIZE[sec]))
+                if sec == 'music':
+                    for i in range(3, len(data), 4):
+                        data[i] &= 0x7f
+                arg = bytes(data) if a['from'] == 'bytes' else bytearray(data)
+                addr = refcodec.REGION_ADDR[sec]
+                try:
+                    if sec == 'gfx':
+                        g.gfx = Gfx.from_bytes(arg, version=33)
+                        g.map._gfx = g.gfx      # as the loaders do
+                    elif sec == 'map':
+                        g.map = Map.from_bytes(arg, version=33, gfx=g.gfx)
+                    elif sec == 'gff':
+                        g.gff = Gff.from_bytes(arg, version=33)
+                    elif sec == 'music':
+                        g.music = Music.from_bytes(arg, version=33)
+                    else:
+                        g.sfx = Sfx.from_bytes(arg, version=33)
+                    m.m[addr:addr + len(data)] = data
+                    if isinstance(arg, bytearray):
+                        caller_buffers.append((step, arg, bytes(arg)))
+                except Exception as e:
+                    exc = e
+                mres, rejected, real = None, False, None
+            elif op == RELOAD_OP:
+                # the history continues on the cart as saved and loaded back
+                # (.p8 cannot hold bit 7 of every fourth music byte: that
+                # format is only used while the memory is representable)
+                fmt = a['fmt']
+                if fmt == 'p8' and any(m.m[models.MUSIC_A + i] & 0x80
+                                       for i in range(3, 256, 4)):
+                    fmt = 'png'
+                name = 'reload%d.%s' % (step, 'p8' if fmt == 'p8'
+                                        else 'p8.png')
+                from pico8.game import file as pfile
+                try:
+                    pfile.to_file(g, w.p(name))
+                    g = pfile.from_file(w.p(name))
+                    core.bump(res['probes'], 'saved-and-reloaded-' + fmt)
+                except Exception as e:
+                    exc = e
+                mres, rejected, real = None, False, None
+            else:
+                mres, rejected = _model(m, op, a)
+                try:
+                    real = _real(g, op, a)
+                except Exception as e:       # picotool raised
+                    exc = e
             flat = _flat(g)
             sizes = _sizes(g)
             outcome = 'ok'
@@ -598,7 +689,28 @@ def execute(sc):
                             break
             if outcome == 'ok' and '.get_' in op and \
                     isinstance(real, (list, tuple)):
-                retained.append((step, op, a, real, _norm(real)))
+                if step % 2 and isinstance(real, list):
+                    # the caller owns what a getter returns and may scribble
+                    # on it: nothing of the cart (and no later result) may
+                    # change because of that
+                    try:
+                        for row in real:
+                            if isinstance(row, bytearray):
+                                for i in range(len(row)):
+                                    row[i] = 0xee      # (not an involution)
+                        core.bump(res['probes'], 'scribbled-on-returned-value')
+                    except Exception:
+                        pass
+                    if _flat(g) != bytes(m.m):
+                        core.violation(
+                            res, 'C17', 'C17:%s:result-aliases-memory' %
+                            op.split('.')[1],
+                            'C17|%s|writing to the returned value changed '
+                            'the cart' % op,
+                            'modifying the list returned by %s(%s) changed '
+                            'cart memory' % (op, _brief(a)), step)
+                else:
+                    retained.append((step, op, a, real, _norm(real)))
             if bytes(m.m) != before:
                 changed_any = True
             if ec not in ('-', 'inside', 'upper') and op != RAW_OP:
@@ -625,9 +737,21 @@ def execute(sc):
                             _brief(_norm(obj))), step)
                     break
         if not res['violations']:
+            for (step, buf, was) in caller_buffers:
+                if bytes(buf) != was:
+                    core.violation(
+                        res, 'C17' if sc['ops'][-1]['op'] != RAW_OP
+                        else 'C18', 'C17:caller-buffer-modified',
+                        'C17|section shares storage with the caller\'s '
+                        'buffer',
+                        'the bytearray handed to from_bytes at step %d was '
+                        'modified by later operations on the cart' % step)
+                    break
+        if not res['violations']:
             if _flat(g2) != bystander0:
                 core.violation(
-                    res, 'C17', 'C17:other-game-modified',
+                    res, 'C18' if all(o['op'] == RAW_OP for o in sc['ops'])
+                    else 'C17', 'C17:other-game-modified',
                     'C17|edits leaked into another Game instance',
                     'a second Game built the same way changed although no '
                     'operation addressed it (history: %s)' % _brief(
